@@ -219,7 +219,8 @@ _dispatch_time_nanoseconds_since_epoch(dispatch_time_t when)
 	if (when == DISPATCH_TIME_FOREVER) {
 		return DISPATCH_TIME_FOREVER;
 	}
-	if ((int64_t)when < 0) {
+	if ((int64_t)when < 0 && (when & DISPATCH_WALLTIME_MASK)) {
+		// Wall time (value 11 in bits 63, 62):
 		// time in nanoseconds since the POSIX epoch already
 		return (uint64_t)-(int64_t)when;
 	}
